@@ -149,6 +149,19 @@ func leafMut(fv reflect.Value, p []sel, out *[]Mutation) {
 				b[len(b)/2] ^= 1
 				v.SetString(string(b))
 			})
+			// structured strings (signer paths "account/key", contract names): the leading part alone
+			add("alter-first-char", func(v reflect.Value) {
+				b := []byte(v.String())
+				b[0] ^= 1
+				v.SetString(string(b))
+			})
+		}
+		if fv.Len() >= 8 {
+			add("alter-quarter-char", func(v reflect.Value) {
+				b := []byte(v.String())
+				b[len(b)/4] ^= 1
+				v.SetString(string(b))
+			})
 		}
 	case reflect.Slice:
 		et := fv.Type().Elem()
